@@ -108,6 +108,11 @@ inductive Op where
   | weight (id : Nat) (lw rw : Nat) (mask : Nat)
   | rmtomb (order : List Nat) (mask : Nat)             -- RemoveTombStoneRecords
   | region (rid : Nat) (stores : List Nat)             -- a region heartbeat placing the region on stores
+  /- the locked halves of the operations that look at the cluster before they take its lock; used for
+     the gated schedules, where that look happened before a concurrent operation finished -/
+  | labelsFrom (r : Req) (force : Bool) (mask : Nat)   -- UpdateStoreLabels after its unlocked GetStore
+  | hbHandle (id : Nat) (mask : Nat)                   -- HandleStoreHeartbeat (after the RPC's checkStore)
+  | checkOnly (ids : List Nat) (mask : Nat)            -- checkStores restricted to the stores its snapshot listed
   deriving Repr, Inhabited
 
 /-- result of a step: new state, result, the store writes attempted -/
@@ -228,6 +233,16 @@ def grpcHeartbeat (s : St) (id : Nat) (mask : Nat) : Out :=
       let o := commit s id { sv with persisted := true } (failBit mask 0)
       { o with res := .ok }
 
+/-- `HandleStoreHeartbeat` alone (the RPC handler's tombstone test was made earlier) -/
+def handleHeartbeat (s : St) (id : Nat) (mask : Nat) : Out :=
+  match get s.served id with
+  | none => reject s .notfound
+  | some sv =>
+    if sv.persisted then reject s .ok
+    else
+      let o := commit s id { sv with persisted := true } (failBit mask 0)
+      { o with res := .ok }
+
 /-- `UpdateStoreLabels` -/
 def updateLabels (s : St) (id : Nat) (ls : Labels) (force : Bool) (mask : Nat) : Out :=
   match get s.served id with
@@ -300,6 +315,12 @@ def checkStores (s : St) (order : List Nat) (mask : Nat) : Out :=
   let r := checkLoop s mask (walk s order) 0 []
   { st := r.1, res := .ok, writes := r.2 }
 
+/-- `checkStores` whose (unlocked) snapshot of the store map listed `ids` as offline: only those are
+    tried; each is re-examined under the lock -/
+def checkStoresOnly (s : St) (ids : List Nat) (mask : Nat) : Out :=
+  let r := checkLoop s mask (dedupAux [] ids) 0 []
+  { st := r.1, res := .ok, writes := r.2 }
+
 /-- `SetStoreWeight`: two weight keys, then the record -/
 def setWeight (s : St) (id : Nat) (lw rw : Nat) (mask : Nat) : Out :=
   match get s.served id with
@@ -357,6 +378,9 @@ def step (s : St) : Op → Out
   | .weight id lw rw mask => setWeight s id lw rw mask
   | .rmtomb order mask => removeTombstones s order mask
   | .region rid stores => regionHeartbeat s rid stores
+  | .labelsFrom r force mask => putImpl s r force (failBit mask 0)
+  | .hbHandle id mask => handleHeartbeat s id mask
+  | .checkOnly ids mask => checkStoresOnly s ids mask
 
 def init (cfg : Config) (cv : Ver) : St := { cfg := cfg, cv := cv }
 
